@@ -449,6 +449,12 @@ def run(ctx: Ctx):
     ctx.assume("the sympy printers print Indexed(X, i) as X[i] (vetted printer rows); lark delivers children in text order")
     ctx.rule("R04.a", "slot families: every producer of a (name, index) pair of a family numbers its slots over a sequence order-equivalent to the family's index function", floor=17)
     slot_families(ctx, "R04.a")
+    # the sequence a producer numbers its slots over is recomputed from the model for every generated function: a
+    # generator that remembers one (a memoised sort, a cached table) hands the sequence computed for the first caller's
+    # options to every later one - the index function and the array then disagree depending on the order of the calls
+    from .c12 import check_generator_purity
+
+    check_generator_purity(ctx, "R04.a")
     ctx.rule("R04.a2", "index dictionaries and unpacking statements pair each element with the index of that same element", floor=8)
     index_dicts(ctx, "R04.a2")
     unpack_pairs(ctx, "R04.a2")
